@@ -23,10 +23,6 @@ func fmtName(file bool) string {
 }
 
 // one generated document, every destination
-// skipTarget: a target left out of the current batch of cases (the model's RawMessage capture `tee` is
-// quadratic in the number of reads, so the 65537-element sequences leave "raw" to the predicate-free run)
-var skipTarget string
-
 func decodeTree(o *hx.Out, cat string, t *c01x.Tree, file bool, name, trail []byte) {
 	r := o.R
 	data := append(t.Doc(file, name), trail...)
@@ -47,9 +43,6 @@ func decodeTree(o *hx.Out, cat string, t *c01x.Tree, file bool, name, trail []by
 		targets = append(targets, "ty:"+c01x.MisfitType(r))
 	}
 	for _, target := range targets {
-		if skipTarget != "" && target == skipTarget {
-			continue
-		}
 		idx++
 		mode := r.Intn(4)
 		res := c01x.RunTarget(file, target, data, mode)
@@ -211,11 +204,9 @@ func main() {
 			ia.Ints = append(ia.Ints, int64(int32(r.Next())))
 			la.Ints = append(la.Ints, int64(r.Next()))
 		}
-		skipTarget = "raw"
-		for _, t := range []*c01x.Tree{l, ia, la, ba} {
+		for _, t := range []*c01x.Tree{l, ia, la, ba} { // RawMessage included: the driver captures in linear time (decode_raw_fast)
 			decodeTree(o, "decode.long-sequence", t, rep%2 == 0, []byte("q"), r.Bytes(r.Intn(3)))
 		}
-		skipTarget = ""
 	}
 	// empty lists with every element id, nested empties
 	for eid := byte(0); eid <= 12; eid++ {
